@@ -149,7 +149,13 @@ fn run_eager(bytes: &[u8], ts_k: u8, odd: u8, mode: u8, base: u64) -> String {
     res.unwrap_or_else(|_| "panic@0/0".into())
 }
 
-/// lazy reader: every value is fetched with the same value strategy
+/// consumer policy of the lazy run: the value announced by the `k`-th token is skipped, not fetched
+/// (the Lean driver uses the same rule)
+fn skip_at(k: usize) -> bool {
+    k % 3 == 1
+}
+
+/// lazy reader: values are fetched with the same value strategy, or skipped (`skip_at`)
 fn run_lazy(bytes: &[u8], ts_k: u8, odd: u8, mode: u8, base: u64) -> String {
     let res = catch(std::panic::AssertUnwindSafe(|| {
         let off = Rc::new(Cell::new(0usize));
@@ -163,16 +169,25 @@ fn run_lazy(bytes: &[u8], ts_k: u8, odd: u8, mode: u8, base: u64) -> String {
         let mut rd = LazyDataSetReader::new_with_options(Shared(dec.clone()), o);
         let mut words: Vec<String> = Vec::new();
         let mut last_vr = None;
-        for _ in 0..CAP {
+        for k in 0..CAP {
             let w = match rd.advance() {
                 None => "D".to_string(),
                 Some(Err(_)) => "E:lazy".to_string(),
                 Some(Ok(t)) => {
                     let lazy_value = matches!(t, LazyDataToken::LazyValue { .. } | LazyDataToken::LazyItemValue { .. });
-                    match t.into_owned_with_strategy(mode_of(mode)) {
-                        Ok(t) => tok_word(&t, &mut last_vr, mode),
-                        Err(_) if lazy_value => "E:lazyValue".to_string(),
-                        Err(_) => "E:lazy".to_string(),
+                    if lazy_value && skip_at(k) {
+                        // the consumer skips this value instead of fetching it
+                        let word = if matches!(t, LazyDataToken::LazyValue { .. }) { "V:skip" } else { "F:skip" };
+                        match t.skip() {
+                            Ok(()) => word.to_string(),
+                            Err(_) => "E:lazyValue".to_string(),
+                        }
+                    } else {
+                        match t.into_owned_with_strategy(mode_of(mode)) {
+                            Ok(t) => tok_word(&t, &mut last_vr, mode),
+                            Err(_) if lazy_value => "E:lazyValue".to_string(),
+                            Err(_) => "E:lazy".to_string(),
+                        }
                     }
                 }
             };
